@@ -106,3 +106,36 @@ func sameIKCache(a, b *Event) bool {
 	}
 	return false
 }
+
+// IsParentMismatchSKLeak recognises the listed finding "sk-ref-leak-on-parent-mismatch"
+// from the failing operation itself: in this operation an IK insert was refused as a
+// duplicate, the SDK fell back to the stored IK, that IK names a parent SK other than
+// the one the creator was holding (the latest SK), and the leaked secret's content is
+// exactly that parent SK.
+func (w *World) IsParentMismatchSKLeak(ev *Event, leaked kit.SecretInfo) bool {
+	calls := w.Log.Calls[ev.CallFrom:ev.CallTo]
+	for i, c := range calls {
+		if c.Target != "store" || c.Op != "Store" || c.OK || len(c.ID) < 4 || c.ID[:4] != "_IK_" {
+			continue
+		}
+		for _, d := range calls[i+1:] {
+			if d.Target != "store" || d.Op != "LoadLatest" || d.ID != c.ID || !d.OK {
+				continue
+			}
+			row := w.Store.Get(d.ID, d.Found)
+			if row == nil || row.Rec.ParentKeyMeta == nil {
+				continue
+			}
+			parent := w.Store.Get(row.Rec.ParentKeyMeta.ID, row.Rec.ParentKeyMeta.Created)
+			latest := w.Store.Latest(row.Rec.ParentKeyMeta.ID)
+			if parent == nil || latest == nil || parent.Created == latest.Created {
+				continue
+			}
+			pt, err := kit.KMSUnwrap(w.KMS.Master, parent.Rec.EncryptedKey)
+			if err == nil && kit.Fp(pt) == leaked.Fp {
+				return true
+			}
+		}
+	}
+	return false
+}
